@@ -5,6 +5,7 @@ package generator
 import (
 	"errors"
 	"path/filepath"
+	"strings"
 
 	"github.com/atombender/go-jsonschema/internal/zzvrt"
 	"github.com/atombender/go-jsonschema/pkg/schemas"
@@ -50,7 +51,7 @@ func HarnessC20() {
 	orderSch := &schemas.Schema{ObjectAsType: (*schemas.ObjectAsType)(order), ID: "https://example.com/order",
 		Definitions: schemas.Definitions{"Base": orderBase}}
 
-	layout := zzvrt.Choice(3)
+	layout := zzvrt.Choice(zzvrt.Param("LAYOUTS", 4))
 	pkgOrder, pkgMoney := "zzreplay/api/order", "zzreplay/common/money"
 	switch layout {
 	case 1:
@@ -59,6 +60,9 @@ func HarnessC20() {
 	case 2:
 		// two packages whose import paths share the last element
 		pkgOrder, pkgMoney = "zzreplay/api/types", "zzreplay/common/types"
+	case 3:
+		// ONE package, two files
+		pkgMoney = pkgOrder
 	}
 	outOrder, outMoney := "order.go", "money.go"
 	if layout == 1 {
@@ -97,7 +101,7 @@ func HarnessC20() {
 		}
 	}
 	srcs := g.Sources()
-	cls := []string{"two-packages", "one-package", "same-last-path-element"}[layout]
+	cls := []string{"two-packages", "one-package", "same-last-path-element", "one-package-two-files"}[layout]
 	zzvrt.Note("layout=" + cls + " first=" + first)
 	if layout == 1 {
 		// recorded finding (alias clash): in the one-package layout the clashing alias also makes
@@ -111,6 +115,13 @@ func HarnessC20() {
 	// argument order / presence of the other file on the command line must not matter
 	zzvrt.Emit("order.go", string(srcs[outOrder]))
 	zzvrt.Emit("money.go", string(srcs[outMoney]))
+	if layout == 3 {
+		// (the two files of one package are not type-checked together here: placement only)
+		moneyRoot, orderRoot := "type "+g.getRootTypeName(moneySch, "money.json")+" struct", "type "+g.getRootTypeName(orderSch, "order.json")+" struct"
+		zzvrt.Check("C20.types-land-in-their-file", strings.Count(string(srcs[outMoney]), moneyRoot) == 1 && strings.Count(string(srcs[outOrder]), orderRoot) == 1 &&
+			!strings.Contains(string(srcs[outOrder]), moneyRoot) && !strings.Contains(string(srcs[outMoney]), orderRoot))
+		return
+	}
 	// the packages type-check together; Money is declared in its own package only
 	hMoney := zzvrt.Stage2As(string(srcs[outMoney]), pkgMoney)
 	if !zzvrt.S2OK(hMoney) {
@@ -126,10 +137,14 @@ func HarnessC20() {
 		if !zzvrt.S2OK(hOrder) {
 			zzvrt.Note(zzvrt.S2Errors(hOrder))
 			zzvrt.Check("C20.packages-build-together", false)
+			// C10: a reference into another document names the type declared for that document
+			// (qualified by, and importing, the package it was mapped to)
+			zzvrt.Check("C10.cross-document-reference-names-the-referenced-type", false)
 			return
 		}
 	}
 	zzvrt.Check("C20.packages-build-together", true)
+	zzvrt.Check("C10.cross-document-reference-names-the-referenced-type", true)
 	moneyRoot := g.getRootTypeName(moneySch, "money.json")
 	orderRoot := g.getRootTypeName(orderSch, "order.json")
 	zzvrt.Check("C20.types-land-in-their-package", zzvrt.S2HasType(hMoney, moneyRoot) && zzvrt.S2HasType(hOrder, orderRoot) &&
@@ -156,6 +171,20 @@ func HarnessC20() {
 	zzvrt.Check("C11.multi-doc.allOf-of-a-ref-branch-means-its-own-document", zzvrt.Iff(accepted, valid))
 	// C04: `code` is required by money.json's Base, which Money composes through allOf/$ref
 	zzvrt.Check("C04.multi-doc.required-through-allOf-ref-branch", zzvrt.Implies(zzvrt.DIs(d, "tag/code", zzvrt.KAbsent), zzvrt.Not(accepted)))
+	// C10: seen from the REFERRING document, price is governed by money.json's root schema
+	// (amount: required integer), whichever package and file that schema was mapped to
+	d2 := zzvrt.NewDoc()
+	zzTypeCorrectObject(d2)
+	zzvrt.Assume(zzvrt.DIs(d2, "price", zzvrt.KObject))
+	zzvrt.Assume(zzvrt.DIs(d2, "meta", zzvrt.KAbsent))
+	zzvrt.Assume(zzvrt.DIs(d2, "price/tag", zzvrt.KAbsent))
+	zzvrt.Assume(zzvrt.Or(zzvrt.DIs(d2, "price/amount", zzvrt.KAbsent), zzvrt.Or(zzvrt.DIs(d2, "price/amount", zzvrt.KString),
+		zzvrt.And(zzvrt.DIs(d2, "price/amount", zzvrt.KNumber), zzvrt.DIsInt(d2, "price/amount")))))
+	_, accepted2, ok := zzRunT("C10.multi-doc", hOrder, orderRoot, "json", d2)
+	if !ok {
+		return
+	}
+	zzvrt.Check("C10.cross-document-reference-means-the-referenced-schema", zzvrt.Iff(accepted2, zzvrt.DIs(d2, "price/amount", zzvrt.KNumber)))
 }
 
 // ---- the real loaders on a virtual file system (C10 file resolution, C20 placement) ----
@@ -304,6 +333,8 @@ func HarnessC13Files() {
     "note": {"type": ["string", "null"], "maxLength": 10},
     "state": {"enum": ["open", "closed", 3, null]},
     "customer": {"$ref": "customer"},
+    "codes": {"type": "object", "properties": {"404": {"type": "string"}, "true": {"type": "boolean"}, "items": {"type": "array", "items": {"type": "object", "properties": {"7": {"type": "integer"}}}}}},
+    "since": {"type": "string", "default": "2020-01-01"},
     "billing": {"allOf": [{"$ref": "customer"}, {"type": "object", "properties": {"vat": {"type": "string"}}, "required": ["vat"]}]}
   },
   "required": ["id"]}`)
@@ -323,6 +354,21 @@ properties:
     enum: [open, closed, 3, null]
   customer:
     $ref: customer
+  # keys and scalars that YAML reads as something other than a string unless told otherwise
+  codes:
+    type: object
+    properties:
+      404: {type: string}
+      true: {type: boolean}
+      items:
+        type: array
+        items:
+          type: object
+          properties:
+            7: {type: integer}
+  since:
+    type: string
+    default: 2020-01-01
   billing:
     allOf:
       - $ref: customer
